@@ -23,6 +23,8 @@ def specs(tier):
                 out.append(spec(A, B, [op, "A", "B"]))
         for e in EXPRS_QUICK:
             out.append(spec("square", "unit", e))
+        out.append(spec("opring", "unit", ["-", "A", "B"]))
+        out.append(spec("opring", "unit", ["^", "A", "B"]))
         return out
     return out
 
